@@ -21,6 +21,7 @@ import (
 
 func init() {
 	components["sst"] = &component{gen: genSst, run: runSst}
+	components["sstsweep"] = &component{gen: genSstSweep, run: runSst}
 }
 
 // ---------- generator ----------
@@ -253,6 +254,107 @@ func canonicalTable(b []byte) []byte {
 	return c
 }
 
+// ---------- component sstsweep (C11, alteration clause; implementation only) ----------
+//
+//	tbuild bloom=<0|1> <n> <entries…>     as in component sst
+//	tsweep                                every single-BIT alteration of the table file: open it; if it opens, iterate it
+//	                                      completely and look up every written key; every entry it yields must be one that was
+//	                                      written (same key, value / deletion flag, sequence number); no panic, no hang.
+//	                                      -> sweep flips=<n> opened=<m> foreign=<k> panics=<p> [first=<offset>.<bit>:<what>]
+func genSstSweep(g *gen, n int, tier string, w *bufio.Writer) {
+	for c := 0; c < n; c++ {
+		cnt := g.pick(3, 17, 33, 40, 49, 60) // 1 .. 4 restart points in the (single) data block
+		es := g.sstEntries(cnt, g.pick(4, 12, 40))
+		fmt.Fprintf(w, "# case %d\n", c)
+		fmt.Fprintf(w, "tbuild bloom=%d %d %s\n", g.pick(1, 1, 0), cnt, fmtSstEntries(es))
+		fmt.Fprintln(w, "tsweep")
+	}
+}
+
+func (x *sstRun) sweep() string {
+	if len(x.orig) == 0 {
+		return "closed"
+	}
+	type ent struct {
+		v    string
+		tomb bool
+		seq  uint64
+	}
+	written := map[string]ent{}
+	origGet := map[string]string{} // what the UNALTERED table answers to a lookup of each written key
+	{
+		x.openFile(x.orig)
+		it := x.rd.NewIterator()
+		for it.SeekToFirst(); it.Valid(); it.Next() {
+			written[string(it.Key())] = ent{string(it.Value()), it.IsTombstone(), it.SequenceNumber()}
+		}
+		for k := range written {
+			if v, err := x.rd.Get([]byte(k)); err != nil {
+				origGet[k] = "err"
+			} else {
+				origGet[k] = "found " + hxv(v)
+			}
+		}
+	}
+	flips, opened, foreign, panics := 0, 0, 0, 0
+	first := ""
+	note := func(off, bit int, what string) {
+		if first == "" {
+			first = fmt.Sprintf("%d.%d:%s", off, bit, what)
+		}
+	}
+	for off := 0; off < len(x.orig); off++ {
+		for bit := 0; bit < 8; bit++ {
+			flips++
+			data := append([]byte{}, x.orig...)
+			data[off] ^= 1 << uint(bit)
+			func() {
+				defer func() {
+					if p := recover(); p != nil {
+						panics++
+						note(off, bit, "panic_"+strings.ReplaceAll(fmt.Sprint(p), " ", "_"))
+					}
+				}()
+				if x.openFile(data) != "ok" {
+					return
+				}
+				opened++
+				it := x.rd.NewIterator()
+				steps := 0
+				for it.SeekToFirst(); it.Valid() && steps < 4*len(written)+16; it.Next() {
+					steps++
+					w, ok := written[string(it.Key())]
+					if !ok || w.v != string(it.Value()) || w.tomb != it.IsTombstone() || w.seq != it.SequenceNumber() {
+						foreign++
+						note(off, bit, fmt.Sprintf("iter_%s:%s:%d", hx(it.Key()), hxv(it.Value()), it.SequenceNumber()))
+						break
+					}
+				}
+				if steps >= 4*len(written)+16 {
+					foreign++
+					note(off, bit, "iteration-does-not-end")
+				}
+				for k := range written {
+					v, err := x.rd.Get([]byte(k))
+					if err != nil {
+						continue // hidden or reported: allowed
+					}
+					if origGet[k] != "found "+hxv(v) {
+						foreign++
+						note(off, bit, fmt.Sprintf("get_%s:%s", hx([]byte(k)), hxv(v)))
+						break
+					}
+				}
+			}()
+		}
+	}
+	out := fmt.Sprintf("sweep flips=%d opened=%d foreign=%d panics=%d", flips, opened, foreign, panics)
+	if first != "" {
+		out += " first=" + first
+	}
+	return out
+}
+
 func (x *sstRun) openFile(data []byte) string {
 	if x.rd != nil {
 		x.rd.Close()
@@ -353,6 +455,8 @@ func (x *sstRun) step(ws []string) (out string) {
 		st := x.openFile(data)
 		x.orig = data
 		return fmt.Sprintf("%s %d %d", st, n, crc32.ChecksumIEEE(canonicalTable(data)))
+	case "tsweep":
+		return x.sweep()
 	case "talter":
 		off, _ := strconv.Atoi(ws[1])
 		xv, _ := strconv.Atoi(ws[2])
